@@ -35,3 +35,29 @@ Proof.
   intro n. unfold gen_render.
   do 12 (destruct n as [|n]; [reflexivity|]). reflexivity.
 Qed.
+
+(* ---- the names chosen for the generated source (Model/C13_Names.v) ------------------------------- *)
+From Boltons Require Import Model.C13_Names.
+
+(* no Python keyword begins or ends with an underscore (hypotheses kw_no_us_front/back of
+   C13_def_name_ok, checked on the regenerated keyword.kwlist) *)
+Definition kw_underscore_free (k : text) : bool :=
+  match k with
+  | [] => true
+  | c :: _ => negb (c =? UNDERSCORE) && negb (last k 0 =? UNDERSCORE)
+  end.
+
+Lemma keywords_tie : forallb kw_underscore_free gen_keywords = true /\ (30 <=? N.of_nat (length gen_keywords)) = true.
+Proof. split; vm_compute; reflexivity. Qed.
+
+(* for ASCII names the model picks exactly the def name and the call name found in the
+   __source__ of real wraps results *)
+Definition names_row_ok (r : text * list text * text * text) : bool :=
+  let '(fn, ps, dn, cn) := r in
+  let cn' := pick_call_name (ps ++ [fn]) in
+  text_eqb cn' cn &&
+  text_eqb (pick_def_name ascii_xid_start ascii_xid_continue (fun t => t)
+                          (fun t => mem_text t gen_keywords) fn [cn'; FUNC]) dn.
+
+Lemma names_tie : forallb names_row_ok gen_names = true /\ (100 <=? N.of_nat (length gen_names)) = true.
+Proof. split; vm_compute; reflexivity. Qed.
